@@ -1,6 +1,7 @@
 import Skv.Drv.C08
+import Skv.Drv.C12
 
-def drivers : List (String × LineDriver) := [("c08", c08Driver)]
+def drivers : List (String × LineDriver) := [("c08", c08Driver), ("c12", c12Driver)]
 
 def main (args : List String) : IO UInt32 := do
   match args with
